@@ -27,7 +27,8 @@ def _crop(case, axis, side):
     c = copy.deepcopy(case)
     for r in c["rasters"]:
         d = r["data"]
-        ax = d.ndim - 2 + axis       # last two dims are (y, x)
+        dn = "y" if axis == 0 else "x"
+        ax = list(r["dims"]).index(dn) if dn in r["dims"] else d.ndim - 2 + axis
         if d.shape[ax] <= 1:
             return None
         sl = [slice(None)] * d.ndim
